@@ -6,7 +6,12 @@ from .common import *
 SPEC = json.loads((Path(__file__).resolve().parents[2] / 'spec' / 'tables.json').read_text())
 FIELDS = ('out', 'warns')
 RULE = 'flat scripts of 1-40 valid lines drawn from spec/tables.json; distinct script texts that contain at least 2 command families'
-WIDE_NONASCII = list('éßﬁǰΩжñç日☃ツ€½²🙂İıŉ')
+# single code points of many kinds: case-mapping specials, compatibility and canonical-equivalence specials (not stable under
+# NFC / NFKC), combining-sequence precomposed letters, other scripts' digits and letters, symbols, astral characters.
+# (No Unicode white space: what Python's str.split() treats as a blank is a blank.)
+WIDE_NONASCII = list('éßﬁǰΩжñç日☃ツ€½²🙂İıŉ') + ['\u212b', '\u2126', '\u212a', '\u037e', '\u0958', '\u0344', '\u1e9b', '\u01c5', '\u03c2', '\u0130',
+    '\u0663', '\u0967', '\uff21', '\uff11', '\u00b5', '\u2160', '\u3392', '\ufb03', '\u1f88', '\u0149', '\U0001d400', '\U0001f1e6', '\u20ac', '\u2260',
+    '\uf900', '\u2f800'[:1], '\u0301', '\u200d', '\ufeff', '\u00ad']
 DOMAIN_NONASCII = list('日☃ツ€')
 SAFE_NONASCII = DOMAIN_NONASCII
 ASCII_PRINT = [chr(i) for i in range(33, 127)]
@@ -42,7 +47,7 @@ def gen_line(g, flipper=True):
         return rand_case(g, name) + ws(g) + ch + trail, ('exact', name + ' ' + ch)
     if fam in ('delay', 'ddelay'):
         name = r.choice(SPEC['delay'] if fam == 'delay' else SPEC['default_delay'])
-        n = r.choice([0, 1, 5, 10, 100, 500, 1000, 65535, 10 ** 9, 10 ** 12, r.randint(0, 99999)])
+        n = r.choice([0, 1, 5, 10, 100, 500, 1000, 65535, 10 ** 9, 10 ** 12, 2 ** 53 + 1, 2 ** 64 + 3, 10 ** 20 + 7, 10 ** 40 + 1, r.randint(0, 99999)])
         lit = ('0' * r.choice([0, 0, 0, 1, 2])) + str(n)
         return rand_case(g, name) + ws(g) + lit + trail, ('exact', f'{name} {n}')
     if fam == 'string':
